@@ -172,7 +172,9 @@ pub fn run_c07(args: &Args) -> i32 {
             for (name, a) in chunk {
                 handles.push(s.spawn(move || {
                     let t0 = std::time::Instant::now();
-                    let (o, e, st) = run_worker(&a, threads);
+                    // the C06 worker (every accepted board driven through the whole safe API) is the
+                    // critical path: it gets the larger share of the cores
+                    let (o, e, st) = run_worker(&a, if name.starts_with("C06") { 3 * threads } else { threads.saturating_sub(1).max(2) });
                     (name.to_string(), o, e, st, t0.elapsed().as_secs_f64())
                 }));
             }
